@@ -1751,6 +1751,21 @@ def tiff_scaling(check, prog):
                 if not isinstance(st_, (ast.Assign, ast.Return)) or st_.value is None:
                     continue
                 v_ = st_.value
+
+                def named(e, before=body[:i_]):
+                    # a local name stands for the expression it was last bound to
+                    # (`shifted = im.astype(float) - s[0]; im = shifted / span`)
+                    if isinstance(e, ast.Name):
+                        for b4 in reversed(before):
+                            if isinstance(b4, ast.Assign) and len(b4.targets) == 1 and \
+                                    isinstance(b4.targets[0], ast.Name) and \
+                                    b4.targets[0].id == e.id and \
+                                    isinstance(b4.value, ast.BinOp):
+                                return b4.value
+                    return e
+                if isinstance(v_, ast.BinOp) and isinstance(v_.op, ast.Div):
+                    v_ = ast.BinOp(left=named(v_.left), op=v_.op, right=named(v_.right))
+                    ast.copy_location(v_, st_.value)
                 if isinstance(v_, ast.BinOp) and isinstance(v_.op, ast.Div) and \
                         isinstance(v_.left, ast.BinOp) and \
                         isinstance(v_.left.op, ast.Sub) and \
